@@ -15,7 +15,8 @@ SIGMA = (0.0, 1.0, 3.0, alpha.NAN)
 THR = (0.25, 0.75, 1.0, 2.5, 10.0)
 PERIODS = (60, 90, 120, 121, 600)
 MINS = ((None, None), (1, None), (2, None), (3, None), (None, 60), (None, 120), (None, 150))
-GAPSETS = ((60, 60, 60, 60), (60, 120, 300, 60), (300, 60, 60, 120), (120, 120, 60, 300), (60, 300, 120, 120))
+GAPSETS = ((60, 60, 60, 60), (60, 120, 300, 60), (300, 60, 60, 120), (120, 120, 60, 300), (60, 300, 120, 120),
+           (59.4, 60.2, 60.6, 59.6))  # the last one: whole-minute sampling with differing sub-second parts (t0 = T0 + 0.6 s)
 THR3 = ((0.75, 0.25), (2.5, 1.0), (0.25, 2.5))
 NMAX = {"quick": 4, "thorough": 5}
 BUDGET = {"quick": 900, "thorough": 3400}
@@ -31,7 +32,7 @@ META = dict(
     bounds={"quick": {"max_len": 4}, "thorough": {"max_len": 5}},
     not_judged=["missing points (C02)", "the empty series (no point to judge; totality is C01)", "std within 1e-9 of a threshold (excluded by the statement)",
                 "range windows containing a missing value: UNKNOWN accepted as well as the NaN-ignoring verdict",
-                "min_period on a single-point series (sampling step undefined)"],
+                "min_period on a single-point series (sampling step undefined)", "min_period on an axis with sub-second parts (rounding of the sampling step)"],
     assumptions=["pandas time-based rolling windows are closed on the right (t-period, t]"],
 )
 
@@ -64,7 +65,9 @@ def check_case(case):
 
     x = case["x"]
     n = len(x)
-    secs = alpha.times_from_gaps(case["gaps"][: max(n - 1, 0)]) if n else []
+    frac = any(float(g) != int(g) for g in case["gaps"])
+    secs = alpha.times_from_gaps(case["gaps"][: max(n - 1, 0)], alpha.T0 + (0.6 if frac else 0)) if n else []
+    secs = [round(s, 3) for s in secs]
     kw = {}
     for k in ("test_period", "min_obs", "min_period"):
         if case.get(k) is not None:
@@ -73,7 +76,8 @@ def check_case(case):
     if case.get("data") == "ma":  # masked array with a finite value hidden under the mask
         miss = [v in (alpha.NAN, None) for v in x]
         data = np.ma.MaskedArray(np.array([50.0 if m else float(v) for v, m in zip(x, miss)]), mask=miss)
-    out = alpha.call(qartod.attenuated_signal_test, data, alpha.dt64(secs), case["suspect"], case["fail"],
+    tin = np.array([int(round(s * 1000)) for s in secs], dtype="int64").astype("datetime64[ms]").astype("datetime64[ns]") if frac else alpha.dt64(secs)
+    out = alpha.call(qartod.attenuated_signal_test, data, tin, case["suspect"], case["fail"],
                      check_type=case["check_type"], **kw)
     acceptable, skipped = R.attenuated(alpha.ref(x), secs, case["suspect"], case["fail"], case.get("test_period"),
                                        case.get("min_obs"), case.get("min_period"), case["check_type"])
@@ -115,6 +119,8 @@ def run_task(task, acc):
             for x in series_from(first, n):
                 for tp in PERIODS:
                     for mo, mp in MINS:
+                        if mp is not None and g == len(GAPSETS) - 1:
+                            continue  # sub-second axis: "min_period / sampling step" depends on how the step is rounded - not judged
                         for s, f in THR3:
                             yield dict(x=x, gaps=list(GAPSETS[g]), check_type=ct, suspect=s, fail=f, test_period=tp, min_obs=mo, min_period=mp)
         run_cases(acc, gen(), check_case)
